@@ -853,7 +853,7 @@ Proof.
   assert (Hnh : lenL hashes <= lenL l).
   { unfold build in Hb. rewrite Ht in Hb. injection Hb as _ <-.
     destruct (tree_of_total bytes node_hash bytes_eqb bytes_eqb_spec l Hne) as [t' [Ht' [_ Hl]]]; [lia|].
-    rewrite Ht in Ht'. injection Ht' as <-. pose proof (thashes_le_leaves bytes node_hash t) as Hle.
+    rewrite Ht in Ht'. injection Ht' as <-. pose proof (thashes_le_leaves bytes node_hash bytes_eqb bytes_eqb_spec t) as Hle.
     rewrite Hl in Hle. unfold lenL. lia. }
   rewrite parse_ser_merkle_block; subst m; cbn [mb_header mb_count mb_hashes mb_flags]; try assumption; try lia.
   - unfold extract_mb. cbn [mb_header mb_count mb_hashes mb_flags].
